@@ -823,6 +823,10 @@ func (t *Topic) handleLeaveRequest(msg *ClientComMessage, sess *Session) {
 				sess.queueOut(NoErrReply(msg, now))
 			}
 		}
+	} else if msg.init {
+		// The session is not attached to the topic on behalf of this user
+		// (e.g. a root session attached as itself asks to leave on behalf of another user).
+		sess.queueOut(InfoNotJoined(msg.Id, msg.Original, now))
 	}
 }
 
